@@ -47,6 +47,7 @@ CONSTANTS
 
 VARIABLES s, script
 vars == <<s, script>>
+StView == s        \* VIEW of the exhaustive configurations: the history variable does not multiply states
 
 Inf == -1
 CurId == 1000000
@@ -144,7 +145,8 @@ Recover ==
 GoSilent ==
     /\ SilentAnytime /\ Alive(s) /\ ~s.silent /\ s.conn \in LateConns /\ s.now < Horizon
     /\ (s.pno + 1) \in LateAt
-    /\ s' = [s EXCEPT !.silent = TRUE, !.silentAt = s.now, !.allTimely = FALSE]
+    /\ s' = [s EXCEPT !.silent = TRUE, !.silentAt = s.now, !.allTimely = FALSE,
+                      !.pongs = { p \in @ : p.at <= s.now }]       \* silent from now on: pongs not yet sent are never sent
     /\ Say([a |-> "silent", c |-> s.conn, k |-> s.answered, at |-> s.now])
 
 BrokerPing(id) ==
@@ -206,7 +208,8 @@ PongEchoesId == Alive(s) => s.bsent = s.bpongs \o s.bq
 \* pings are never sent more often than the ticker allows: ping n+1 is not sent before n * I after the start of the incarnation
 PingPacing == (Variant = "code" /\ s.pno >= 1) => s.sentAt >= s.startAt + (s.pno - 1) * NI
 \* recovery: a closed connection is always replaced (while the model allows another incarnation)
-RecoveryFollows == [](s.phase = "closed" /\ s.conn < MaxConn => <>(s.phase # "closed"))
+RecoveryImmediate == (s.phase = "closed" /\ s.conn < MaxConn) => (s.now = s.closedAt /\ ENABLED Recover)
+RecoveryFollows == [](s.phase = "closed" /\ s.conn < MaxConn => <>(s.phase # "closed"))     \* (checked by the small _live cfg, no VIEW)
 
 \* script generation: print the environment projection of every complete behaviour
 Terminal == s.now = Horizon /\ ~Urgent(s)
